@@ -35,7 +35,8 @@ def prepare(ctx):
     cfg = ["-I", os.path.join(lib, "include"), "-I", os.path.join(cbuild.CSHIM, "fw/cfgdir/a/b")]
     libobjs = [cbuild.compile_obj(os.path.join(lib, "src", f + ".c"), os.path.join(b, f + ".o"), cfg) for f in ("msgb", "talloc", "panic")]
     for v in ("host", "target"):
-        extra = ["-DHOST_BUILD", "-I", os.path.join(REPO, "src/target/firmware/include/comm")] if v == "host" else []
+        # (the target branch is compiled with the target's ABI: plain char unsigned, as on ARM)
+        extra = ["-DHOST_BUILD", "-I", os.path.join(REPO, "src/target/firmware/include/comm")] if v == "host" else ["-funsigned-char"]
         o = cbuild.compile_obj(os.path.join(VERIF, "c", "drv_sercomm.c"), os.path.join(b, "drv_%s.o" % v), common + extra)
         _d["exe_" + v] = cbuild.link([o] + libobjs, os.path.join(b, "drv_sercomm_" + v))
 
